@@ -631,6 +631,35 @@ theorem C13_full_holds : C13_full := by
     exact unsent_discharges_nothing hok hw hs hcm rfl
       (log_mono_le (by omega) (hnr.mono (Nat.le_refl _) (by omega)) hlog) hlt ep cl attr
 
+/-- **When a change is recorded every live subscription owes it** (its watermark is below the id the
+change gets) and every context alive at that moment — a priming, a report begun earlier — has a
+snapshot below it: such a context cannot discharge the debt, whatever its ending. -/
+theorem change_is_owed_by_every_live_subscription {s : State} (hwf : WF s) (p : Entry) :
+    (s.changed.nextId, p) ∈ (s.change p).log ∧
+    (∀ x ∈ (s.change p).live, x.seenAttr < s.changed.nextId) ∧
+    (∀ c ∈ (s.change p).ctxs, c.nextAttr < s.changed.nextId) :=
+  recorded_change_is_owed hwf p
+
+/-- **The debt lasts until a report that covers it is committed** (`Subs.owes_until_covering_commit`): a
+subscription that owes change `i` at step `k` still owes it at every later step of the boot, unless a
+context of it with a snapshot `≥ i` — by `C13_full` (1): a report **begun after the change** — has ended
+with `keep` or `unsent` in between. Failed reports, acknowledged reports begun before the change, the
+reports / purges / removals concerning others do not end it. With `C13_full` this closes the account of
+one change: owed from the moment it is recorded, carried by every report begun from then on, discharged
+by the first of them that is acknowledged (or by the end of the subscription). -/
+theorem debt_lasts_until_covering_report_is_committed {hz n : Nat} {sched : Nat → Op}
+    (hw : ∀ k, (stateAt hz n sched k).changed.nextId + 1 < U64) {k t id i : Nat} (hkt : k ≤ t)
+    (hid : id < (stateAt hz n sched k).nextSubId)
+    (h0 : ∀ x ∈ (stateAt hz n sched k).live, x.id = id → x.seenAttr < i)
+    (hnr : NoRestart sched k t)
+    (hfin : ∀ u, k ≤ u → u < t → ∀ f c, sched u = .fin id f → c ∈ (stateAt hz n sched u).ctxs →
+      c.sub.id = id → f = .retry ∨ f = .drop ∨ c.nextAttr < i) :
+    ∀ x ∈ (stateAt hz n sched t).live, x.id = id → x.seenAttr < i := by
+  have := owes_until_covering_commit hw hid h0 (t - k) (by rwa [show k + (t - k) = t by omega])
+    (fun u h1 h2 => hfin u h1 (by omega))
+  rw [show k + (t - k) = t by omega] at this
+  exact this.1
+
 /-! ### the statement is false for the code before the repair of `purge_reported_changes` -/
 
 /-- the step function of the unrepaired table: `purge` is `purge_reported_changes` as it was -/
@@ -1121,6 +1150,13 @@ example : ∃ (hz n : Nat) (sched : Nat → Op) (k j m : Nat) (c : Ctx) (i : Nat
       have : t = 4 := by omega
       subst this; decide,
     rfl, by decide⟩
+
+/-- the hypotheses of `debt_lasts_until_covering_report_is_committed` are satisfiable: on `fairSched`, subscription 1 owes change 1 from step 3 to step 4 (its
+covering report is committed at step 4) -/
+example : (∀ x ∈ (stateAt 1000000 1 fairSched 3).live, x.id = 1 → x.seenAttr < 1) ∧
+    (∀ x ∈ (stateAt 1000000 1 fairSched 4).live, x.id = 1 → x.seenAttr < 1) ∧
+    1 < (stateAt 1000000 1 fairSched 3).nextSubId := by
+  refine ⟨by decide, by decide, by decide⟩
 
 /-- like `fairSched`, then one expiry sweep and reporter passes that find nothing for ever -/
 def idleSched : Nat → Op
